@@ -27,7 +27,7 @@ def parseGrammar (g : String) : LRReq :=
         match r.splitOn ":" with
         | [l, rhs] => (toNat l, (splitL rhs ".").map parseSym)
         | _ => (0, []))
-      start := toNat s, eof := toNat e, prefixMode := p == "1" }
+      start := toNat s, eof := toNat e, prefixMode := p == "1" || p == "3" }   -- 2 / 3: the caller computed FIRST beforehand (no effect on a pure model)
   | _ => ⟨0, [], 0, 0, false⟩
 
 /-- rule number (order of `add` calls) of alternative `alt` of `left` -/
